@@ -25,6 +25,7 @@ func init() {
 			c09R4(c, "C09.R4")
 			c09R5(c, "C09.R5")
 			ruleFreelistNoAlias(c, "C09.R6")
+			c09R7(c, "C09.R7")
 		},
 		CHA: func(c *Ctx) { ruleFreeSetEntry(c, "C09.R1") },
 	})
@@ -322,5 +323,100 @@ func ruleFreelistNoAlias(c *Ctx, id string) {
 				c.check(fmt.Sprintf("%s:%s:%s#%d", id, shortFn(fn), calleeOf(ci).Name(), n), fn, ci.Pos(), "the id list given to the free list is private memory (a copy, a scan result or the backend's own list), never a view of a page", bad == "", bad)
 			}
 		}
+	})
+}
+
+// c09R7: "freeing makes a page AND ITS OVERFLOW pending": the loop in Free that records ids runs over
+// exactly p.Id() .. p.Id()+p.Overflow() (tabulated on the loop's induction variable, bound and step).
+func c09R7(c *Ctx, id string) {
+	c.rule(id, "free-covers-the-run", 1, func() {
+		fr := c.fn("freelist.(*shared).Free")
+		idsF := c.P.lookupField(freelistPath, "txPending", "ids")
+		var store *ssa.Store
+		for _, st := range storesToField([]*ssa.Function{fr}, idsF) {
+			store, _ = st.Instr.(*ssa.Store)
+		}
+		if store == nil {
+			c.check(id+":freelist.(*shared).Free:run", fr, fr.Pos(), "Free appends to txPending.ids", false, "no store to txPending.ids in Free")
+			return
+		}
+		loops := naturalLoops(fr)
+		var hdr *ssa.BasicBlock
+		size := 1 << 30
+		for h, body := range loops {
+			if body[store.Block()] && len(body) < size {
+				hdr, size = h, len(body)
+			}
+		}
+		bad := ""
+		if hdr == nil {
+			bad = "the store to txPending.ids is not inside a loop: only one id is recorded per freed page run"
+		} else {
+			iff, ok := hdr.Instrs[len(hdr.Instrs)-1].(*ssa.If)
+			var bo *ssa.BinOp
+			if ok {
+				bo, _ = iff.Cond.(*ssa.BinOp)
+			}
+			if bo == nil {
+				bad = "loop header does not end in a comparison"
+			} else {
+				for _, row := range [][2]uint64{{10, 0}, {10, 3}, {7, 70000}} {
+					hooks := func() *Evaluator {
+						return &Evaluator{Call: func(call *ssa.Call, args []V) (V, bool) {
+							switch calleeOf(call).Name() {
+							case "common.(*Page).Id":
+								return uV(row[0]), true
+							case "common.(*Page).Overflow":
+								return uV(row[1]), true
+							}
+							return unkV, false
+						}}
+					}
+					ind, bound := bo.X, bo.Y
+					first, ok1 := hooks().ValueAtEntry(ind).Int()
+					lim, ok2 := hooks().ValueAtEntry(bound).Int()
+					last := int64(0)
+					switch bo.Op {
+					case token.LEQ:
+						last = lim
+					case token.LSS:
+						last = lim - 1
+					default:
+						bad = "unrecognised loop comparison " + bo.Op.String()
+					}
+					if bad == "" && (!ok1 || !ok2 || uint64(first) != row[0] || uint64(last) != row[0]+row[1]) {
+						bad = fmt.Sprintf("page %d with overflow %d: the loop records ids %d..%d, want %d..%d", row[0], row[1], first, last, row[0], row[0]+row[1])
+					}
+				}
+				// step +1 and the recorded id is the induction variable
+				if ph, isPhi := bo.X.(*ssa.Phi); bad == "" && isPhi {
+					stepOK := false
+					for i, e := range ph.Edges {
+						if hdr.Dominates(ph.Block().Preds[i]) {
+							if add, isAdd := e.(*ssa.BinOp); isAdd && add.Op == token.ADD && add.X == ssa.Value(ph) {
+								if k, isK := constInt(add.Y); isK && k == 1 {
+									stepOK = true
+								}
+							}
+						}
+					}
+					if !stepOK {
+						bad = "the id does not advance by exactly 1 per iteration"
+					}
+					rec := false
+					for _, l := range provenance(store.Val, provOpts{ThroughCall: func(call *ssa.Call) bool { return calleeOf(call).Name() == "builtin:append" }}) {
+						if l.V == ssa.Value(ph) {
+							rec = true
+						}
+					}
+					if !rec {
+						bad = "the value appended to txPending.ids is not the loop's page id"
+					}
+				} else if bad == "" {
+					bad = "loop induction variable not recognised"
+				}
+			}
+		}
+		c.check(id+":freelist.(*shared).Free:run", fr, store.Pos(), "Free records every id of the run p.Id() .. p.Id()+p.Overflow() as pending (induction variable, bound and step tabulated)", bad == "", bad)
 	})
 }
